@@ -63,6 +63,22 @@ func VHC14Selector() {
 	}
 	a := c14Eval(prog, []string{sel}, docs())
 	b := c14Eval("BEGINFILE { $ = "+sel+" }\n"+prog, nil, docs())
+	if vh.Choose("twice", 2) == 1 {
+		// the same selector given twice: every selector sees the value as it was read, so a
+		// program that writes into $ behaves the second time exactly as the first time
+		if ndocs != 1 {
+			return
+		}
+		once := c14Eval("{ $.n++; $.tag = 'x' }\n{ print $.n, $.tag, $ }", []string{sel}, docs())
+		twice := c14Eval("{ $.n++; $.tag = 'x' }\n{ print $.n, $.tag, $ }", []string{sel, sel}, docs())
+		vh.Reach("selector compared")
+		vh.Assert(once.k == twice.k, "C14: a repeated selector ends with the same outcome: "+sel)
+		if once.k == OK {
+			vh.Assert(twice.out == once.out+once.out, "C14: each -r selector is applied to the value as it was read, whatever an earlier selector's pass wrote: "+sel)
+			vh.Assert(twice.json == once.json, "C14: the JSON output after a repeated selector is that of one pass: "+sel)
+		}
+		return
+	}
 	vh.Reach("selector compared")
 	vh.Assert(a.k == b.k, "C14: -r E and BEGINFILE { $ = E } end with the same outcome: E = "+sel)
 	vh.Assert(a.out == b.out, "C14: -r E and BEGINFILE { $ = E } print the same: E = "+sel)
@@ -71,7 +87,7 @@ func VHC14Selector() {
 
 // ---- the wrapper clauses: the real cli.Run on a model of argv / files / descriptors ----
 
-const c14Prog = "BEGIN { print 'B' }\n{ print $file == 'hidden', $.name, $.n }\n$.n > 1 { $.seen = true }\nEND { print 'E' }"
+const c14Prog = "BEGIN { print 'B', 'cr\r\nlf\ttab' }\n{ print $file == 'hidden', $.name, $.n }\n$.n > 1 { $.seen = true }\nEND { print 'E' }"
 
 func c14Docs(tag string, s string) []any {
 	return []any{
